@@ -94,6 +94,7 @@ def jErr : Err → Json
   | .assertionError => jStr "AssertionError"
   | .typeError => jStr "TypeError"
   | .indexError => jStr "IndexError"
+  | .unmodelled => jStr "Unmodelled"
 
 def jRes : Except Err Laser → Json
   | .ok L => jObj [("ok", jLaser L)]
@@ -102,18 +103,10 @@ def jRes : Except Err Laser → Json
 def asPath (j : Json) : R PathInfo := do
   pure { stem := ← fld j "stem" >>= asS, resolved := ← fld j "resolved" >>= asS }
 
-/-- numeric components of a version string, if it has only such -/
-def versionNums (v : Str) : Option (List Nat) :=
-  (splitOn '.' v).mapM fun s => match parseNat s with | .ok n => some n | .error _ => none
-
-/-- specification of loading a file of an old layout: rejected below 0.6.0, else the laser with
-the info that layout carries -/
-def specOld (v06 : Bool) (p : PathInfo) (ver : Str) (L : Laser) : Except Err Laser :=
-  match versionNums ver with
-  | none => .error .valueError
-  | some ns =>
-    if lexZip ns [0, 6, 0] = -1 then .error .valueError
-    else .ok (if v06 then normaliseV06 p ver L else normalise p ver L)
+/-- the file `save` writes with another class name in its header (a malformed file: class and
+`config` member may disagree) -/
+def withHeaderClass (ver time cls : Str) (f : NpzFile) : NpzFile :=
+  { f with header := some (packInfo [(kVersion, ver), (kClass, cls), (kTime, time)]) }
 
 def handle (op : String) (req : Json) : R Json := do
   match op with
@@ -134,16 +127,28 @@ def handle (op : String) (req : Json) : R Json := do
     let time ← fld req "time" >>= asS
     let v06 ← fld req "v06" >>= asS
     let v07 ← fld req "v07" >>= asS
+    let legacy ← getBool req "legacy_class"
+    -- hypotheses of `loadV06_eq_spec` / `loadV07_eq_spec` / `load_save*_legacy` / `load_save`
     let hyp := L.ok && versionOk ver && noNulEnd time
-      && (version06Ok v06 || (noNulEnd v06 && cmpLt v06 v060)) && version07Ok v07
+      && noNulEnd v06 && (version06Ok v06 || !cmpGe v06 v060)
+      && noNulEnd v07 && (version07Ok v07 || !cmpGe v07 v060)
       && noNulEnd ((dictGet L.info kName).getD [])
-    pure (jObj [("model", jObj [("v06", jRes (saveV06 id v06 L >>= load id p)),
-                                ("v07", jRes (saveV07 id v07 L >>= load id p)),
+    let ren (f : NpzFile) : NpzFile := if legacy then f.mapCls legacyOf else f
+    pure (jObj [("model", jObj [("v06", jRes ((saveV06 id v06 L).map ren >>= load id p)),
+                                ("v07", jRes ((saveV07 id v07 L).map ren >>= load id p)),
                                 ("v08", jRes (save id ver time L >>= load id p))]),
                 ("spec", jObj [("v06", jRes (specOld true p v06 L)),
                                ("v07", jRes (specOld false p v07 L)),
                                ("v08", jRes (.ok (normalise p ver L)))]),
                 ("hyp", jBool hyp)])
+  | "c01.crossclass" =>
+    -- a file saved from `L` whose header names the class `cls`: compared with the code only
+    let L ← fld req "laser" >>= asLaser
+    let p ← fld req "path" >>= asPath
+    let ver ← fld req "version" >>= asS
+    let time ← fld req "time" >>= asS
+    let cls ← fld req "cls" >>= asS
+    pure (jObj [("model", jRes ((save id ver time L).map (withHeaderClass ver time cls) >>= load id p))])
   | _ => throw s!"unknown op {op}"
 
 end PewDriver.C01
